@@ -427,7 +427,8 @@ class FactoryFunctorPool(FunctorPool):
             self.verbose = verbose
 
         def run(self) -> None:
-            while not self.stop_event.is_set():
+            while True:
+                # the stop order (None) must be always consumed, else it would stop the thread of the next imap call
                 replace_id = self.pool._replace_queue.get()
                 if replace_id is None:
                     break
